@@ -124,6 +124,10 @@ SweepSet ==
            cl \in {<<32, FALSE>>, <<64, TRUE>>}, m \in {62, 40}, o \in {0, 3, 6, 9},
            n \in {"SHT_DYNSYM", "SHT_SUNW_LDYNSYM", "SHT_SYMTAB_SHNDX", "SHT_SUNW_syminfo", "SHT_GNU_verneed", "SHT_GNU_verdef", "SHT_GNU_versym",
                   "SHT_HASH", "SHT_GNU_HASH"}}
+  \* the stabs section is recognised by name AND type (SHT_PROGBITS): the name under other types, other names under the type
+  \cup {<<"stab_name", [Base(cl, 62) EXCEPT !.secs = <<Sec(nm, t, Z, Z, Rep(0, 12), N(12), Z, Z, N(4), N(12))>>]>> :
+           cl \in {<<32, TRUE>>, <<64, FALSE>>}, nm \in {DotStab, DotStab \o <<50>>, <<46, 115, 116, 97>>},
+           t \in {N(1), N(8), N(14), N(7), W32(52, 18, 255, 111)}}
   \* p_type likewise
   \cup UNION {{<<"p_type", [Base(<<64, FALSE>>, m) EXCEPT !.segs = <<OneSeg(W(DTrunc(d, 4)))>>]>> :
                   d \in RegCodes(AllPtNames) \cup Boundary32} : m \in SweepMachines}
